@@ -191,6 +191,11 @@ class _InMemoryResult(Result):
       self, dna_fn: Callable[[], geno.DNA], group_id: str) -> Trial:
     """Appends a trial to the result."""
     with self._lock:
+      # NOTE: a co-worker of the same group may have created a trial since the
+      # caller last checked. Hand out that one instead of orphaning it.
+      trial = self._latest_trial_per_group.get(group_id, None)
+      if trial is not None and trial.status == 'PENDING':
+        return trial
       if (self._max_num_trials is not None
           and self.next_trial_id() > self._max_num_trials):
         raise StopIteration()
